@@ -118,6 +118,14 @@ func checkC06(c *Ctx) {
 			if k < len(mc.Bindings) && iAlloc != nil && mc.Bindings[k] == ssa.Value(iAlloc) {
 				iFree = fv
 			}
+			// the closure is built in a helper: it captures the helper's copy of the request
+			if k < len(mc.Bindings) && iFree == nil {
+				if a, ok := mc.Bindings[k].(*ssa.Alloc); ok && a.Parent() != fn {
+					if sst := singleStore(a); sst != nil && isI(sst) {
+						iFree = fv
+					}
+				}
+			}
 		}
 		eachInstr(cf, func(ins ssa.Instruction) {
 			if isCall(ins, wden, wconf) {
